@@ -60,6 +60,11 @@ def execute_case(prop, case, want_trace=False):
         else:
             viols = list(run.judge(outcome) or [])
             res['violations'] = viols
+            # a workload thread of the harness itself must never die of an exception: that would silently drop checks
+            hd = [d for d in sim.died if str(d[3]).startswith('Run.') and (d[2] is None or str(d[2]) == 'None')]
+            if hd:
+                res['outcome'] = 'harness-error'
+                res['harness_error'] = {'why': 'workload thread died', 'died': [list(map(str, d)) for d in hd]}
             res['obs'] = getattr(run, 'obs_summary', lambda: None)()
             if getattr(run, 'evals', None):
                 res['evals'] = run.evals
